@@ -335,7 +335,7 @@ def isDescendant (dir test : Bytes) : Bool :=
     rel.length > 0 && rel != [46] && rel != [46, 46] && !hasPrefix rel [46, 46, 47]
   else false
 
-/-! ### mount-table queries used by package manage (after fixes 8d11829, 05db66c) -/
+/-! ### mount-table queries used by package manage (after fixes 8d11829, e546b99) -/
 
 def getMountAndSubmounts (m : Mounts) (path : Bytes) : List MountType :=
   let pre := path ++ [47]
